@@ -134,7 +134,7 @@ func vRegister(r codectypes.InterfaceRegistry) { types.RegisterInterfaces(r) }
 // NewVEnv wires the real skyway keeper at the given block height.
 func NewVEnv(height int64) *VEnv {
 	ctx, ms := models.NewContext(height)
-	bank := models.NewBank()
+	bank := models.NewBank(ms)
 	evm := &VEVM{}
 	staking := models.NewStaking()
 	handler := &VHandler{}
